@@ -179,6 +179,35 @@ def engine_selftest():
                 agree += 1
             elif len(bad) < 3:
                 bad.append(repr(cons))
+    # weighted-sum rule: booleans b1..b3 (+ b5), an unknown q, over p = 31 / 13 (13 makes sums wrap, so the
+    # rule must stand aside): sum c_i b_i = k ; sum c_i b_i = q with q^2 = m ; sum c_i b_i = q with d*q + b5 = t
+    for p in (31, 13):
+        coeffs = (1, 2, 4, 3, p - 1, 6)
+        boolc = lambda v: ({v: 1}, {0: 1, v: p - 1}, {})
+        for cs in itertools.product(coeffs, repeat=3):
+            lin = {1: cs[0], 2: cs[1], 3: cs[2]}
+            systems = []
+            for k in (0, 1, 3, 5, 7, p - 1):
+                systems.append(([boolc(1), boolc(2), boolc(3), ({0: 1}, dict(lin), {0: k})], 3))
+            for m in (0, 1, 4, 9):
+                systems.append(([boolc(1), boolc(2), boolc(3), ({0: 1}, dict(lin), {4: 1}), ({4: 1}, {4: 1}, {0: m})], 4))
+            for d, t in ((1, 3), (2, 5), (3, 0), (2, 11)):
+                systems.append(([boolc(1), boolc(2), boolc(3), boolc(5), ({0: 1}, dict(lin), {4: 1}), ({0: d}, {4: 1}, {0: t, 5: p - 1})], 5))
+            for cons, nv in systems:
+                b, _ = W.brute(cons, nv, {}, p)
+                sols, undec, _ = W.exact(cons, nv, {}, p)
+                n += 1
+                if undec:
+                    undecided += 1
+                    continue
+                ex = set()
+                red = W.reduce_system(cons, p)
+                for s_ in sols:
+                    ex.update(W.expand(s_, p, nv, cons=red))
+                if ex == set(b):
+                    agree += 1
+                elif len(bad) < 3:
+                    bad.append(repr((p, cons)))
     return n, agree, undecided, bad
 
 
